@@ -120,6 +120,7 @@ func sig(sc *Scenario) string {
 }
 
 type result struct {
+	envSkip string
 	sc      Scenario
 	obs     Obs
 	err     error
@@ -158,6 +159,10 @@ func (m *modelClient) ask(line string) (string, error) {
 
 func evalOne(sc Scenario, ev *env, m *modelClient) result {
 	res := result{sc: sc}
+	if sc.Fail == "unreach" && !unreachNow() {
+		res.envSkip = "unreach"
+		return res
+	}
 	for res.tries = 1; ; res.tries++ {
 		res.obs, res.err = runScenario(&sc, ev)
 		// a session that ran into the harness's own time limit, or a relay that did not come up, is retried once:
@@ -167,6 +172,10 @@ func evalOne(sc Scenario, ev *env, m *modelClient) result {
 		}
 	}
 	if res.err != nil {
+		return res
+	}
+	if sc.Fail == "unreach" && !unreachNow() {
+		res.envSkip = "unreach"
 		return res
 	}
 	res.vs = oracle(&sc, &res.obs)
@@ -212,6 +221,12 @@ func evalOne(sc Scenario, ev *env, m *modelClient) result {
 
 func record(rep *common.Report, res *result) {
 	sc := &res.sc
+	if res.envSkip != "" {
+		// the fault this scenario injects is not what the environment does right now: nothing is evaluated
+		rep.Case(sig(sc), false)
+		rep.Count("env-skip:" + res.envSkip)
+		return
+	}
 	nontrivial := res.err == nil && (sc.Fail != "" || res.obs.TargetRxLen+res.obs.ClientRxLen > 0)
 	rep.Case(sig(sc), nontrivial)
 	rep.Count("pair:" + sc.Server + ">" + sc.Client)
@@ -260,7 +275,7 @@ func main() {
 	}
 	defer stopEnv()
 	if !ev.unreachOK {
-		rep.Note("203.0.113.1:80 does not fail fast with ENETUNREACH here: the unreachable-network scenarios are skipped")
+		rep.Note("a connect to %s does not fail at once with ENETUNREACH here: the unreachable-network scenarios are skipped", unreachAddr)
 	}
 	newModel := func() (*modelClient, error) {
 		if o.Driver == "" {
